@@ -175,6 +175,58 @@ theorem cacheInv_run {kw : Bool} {f : File} {unc : Codec} (hc : CodecBounded unc
     cases op with
     | read ino o n => exact ih _ (read_inv hc ino o n h)
 
+/-! ### the other entry points that touch the caches (C10's `OpX`): fragment access, streams, reloading the fragment table -/
+
+theorem getFragment_dr (f : File) (unc : Codec) (d : DR) (ino : DataReader.Inode) :
+    (DataReader.getFragment f unc d ino).2 = d ∨ (DataReader.getFragment f unc d ino).2 = (DataReader.precacheFrag f unc d ino.fragIdx).2 := by
+  unfold DataReader.getFragment
+  repeat' (first | split | dsimp only)
+  all_goals first | exact Or.inl rfl | exact Or.inr rfl
+
+theorem streamFill_dr (f : File) (unc : Codec) (d : DR) (s : DataReader.Stream) (used : Nat) :
+    (DataReader.streamFill f unc d s used).2 = d ∨ (DataReader.streamFill f unc d s used).2 = (DataReader.precacheFrag f unc d s.fragIdx).2 := by
+  unfold DataReader.streamFill
+  repeat' (first | split | dsimp only)
+  all_goals first | exact Or.inl rfl | exact Or.inr rfl
+
+theorem streamGet_dr (sfix : Bool) (f : File) (unc : Codec) (d : DR) (s : DataReader.Stream) :
+    (DataReader.streamGet sfix f unc d s).2.2 = d ∨ (DataReader.streamGet sfix f unc d s).2.2 = (DataReader.precacheFrag f unc d s.fragIdx).2 := by
+  unfold DataReader.streamGet
+  split
+  · exact Or.inl rfl
+  · split
+    · exact Or.inl rfl
+    · have h := streamFill_dr f unc d { s with bufOff := 0, bufUsed := if s.filesz < d.blockSize then s.filesz else d.blockSize }
+        (if s.filesz < d.blockSize then s.filesz else d.blockSize)
+      simp only []
+      split <;> rename_i heq <;> rw [heq] at h <;> exact h
+
+theorem stepX_inv {kw sfix : Bool} {f : File} {unc : Codec} (hc : CodecBounded unc) {d : DR} (op : DataReader.OpX) (h : cacheInv d = true) :
+    cacheInv (DataReader.stepX kw sfix f unc d op) = true := by
+  cases op with
+  | read ino o n => exact read_inv hc ino o n h
+  | frag ino =>
+    show cacheInv (DataReader.getFragment f unc d ino).2 = true
+    rcases getFragment_dr f unc d ino with e | e <;> rw [e]
+    · exact h
+    · exact (precacheFrag_inv hc ino.fragIdx h).1
+  | sget s c =>
+    show cacheInv (DataReader.streamGet sfix f unc d s).2.2 = true
+    rcases streamGet_dr sfix f unc d s with e | e <;> rw [e]
+    · exact h
+    · exact (precacheFrag_inv hc s.fragIdx h).1
+  | reload t =>
+    simp only [cacheInv, Bool.and_eq_true] at h
+    cases t <;> simp [DataReader.stepX, DataReader.reload, cacheInv, h.1]
+
+/-- every reader state reachable through **any** of the entry points that touch the caches satisfies the cache invariant -/
+theorem cacheInv_runX {kw sfix : Bool} {f : File} {unc : Codec} (hc : CodecBounded unc) :
+    ∀ (hist : List DataReader.OpX) (d : DR), cacheInv d = true → cacheInv (DataReader.runX kw sfix f unc d hist) = true := by
+  intro hist
+  induction hist with
+  | nil => intro d h; exact h
+  | cons op rest ih => intro d h; exact ih _ (stepX_inv hc op h)
+
 /-- the toy decompressor of the harnesses respects its output buffer -/
 theorem toyUnc_bounded : CodecBounded toyUnc := by
   intro inp sz out h
